@@ -13,6 +13,7 @@ import (
 	"path/filepath"
 	"sort"
 	"strings"
+	"syscall"
 	"time"
 
 	"github.com/MichaelMure/git-bug/repository"
@@ -32,6 +33,7 @@ type Event struct {
 	Detail  string `json:"detail"`
 	Out     string `json:"out"`
 	Interop bool   `json:"interop"` // a step of stock git (or a look at what it left): must succeed
+	Hung    bool   `json:"hung"`    // the command did not come back
 }
 
 type rng struct{ s uint64 }
@@ -186,7 +188,19 @@ func (s *session) gb(dir string, args ...string) (string, int) {
 	cmd.Env = append(os.Environ(), "HOME="+s.root, "XDG_CONFIG_HOME="+filepath.Join(s.root, "xdg"), "EDITOR=true")
 	var buf bytes.Buffer
 	cmd.Stdout, cmd.Stderr = &buf, &buf
-	err := cmd.Run()
+	cmd.SysProcAttr = &syscall.SysProcAttr{Setpgid: true}
+	hx.Must(cmd.Start())
+	done := make(chan error, 1)
+	go func() { done <- cmd.Wait() }()
+	var err error
+	select {
+	case err = <-done:
+	case <-time.After(3 * time.Minute):
+		// a command that does not come back is an outcome (exit status hungExit), not the driver's trouble
+		_ = syscall.Kill(-cmd.Process.Pid, syscall.SIGKILL)
+		<-done
+		return fmt.Sprintf("git-bug %s did not return within 3 minutes", strings.Join(args, " ")), hungExit
+	}
 	code := 0
 	if err != nil {
 		code = 1
@@ -197,9 +211,11 @@ func (s *session) gb(dir string, args ...string) (string, int) {
 	return buf.String(), code
 }
 
+const hungExit = -999
+
 func (s *session) step(dir string, label string, f func() (string, int)) {
 	out, code := f()
-	ev := &Event{Ev: "Step", Sess: s.n, Cmd: label, Exit: code, Out: out,
+	ev := &Event{Ev: "Step", Sess: s.n, Cmd: label, Exit: code, Out: out, Hung: code == hungExit,
 		Interop: strings.HasPrefix(label, "stock git") || strings.HasPrefix(label, "attachments") || strings.HasPrefix(label, "git-bug after gc")}
 	if len(ev.Out) > 300 {
 		ev.Out = ev.Out[:300]
@@ -424,6 +440,19 @@ func runSession(n int, seed uint64, gitbug string, steps int) []*Event {
 					return err.Error(), 1
 				}
 				s.attached[b3.Id().String()] = []string{string(es[0]), string(es[1]), string(es[2])}
+				// and file lists that name no object: strings that are no hashes at all, and a well-formed hash of a blob that does not
+				// exist. Refused or accepted, what is written has to be sound (the checks after this step look at it)
+				for j, bogus := range []string{"thisisnotthehashofanygitobjectxxxxxxxxxx", strings.Repeat("g", 64), strings.Repeat("Z", 40), "abc", "",
+					strings.Repeat("0", 40), "0123456789abcdef0123456789abcdef01234567", strings.Repeat("ab", 32)} {
+					bb, _, err := c.Bugs().NewWithFiles(fmt.Sprintf("bogus file %d.%d", k, j), "see the attachment", []repository.Hash{repository.Hash(bogus)})
+					if err == nil {
+						_, _, err = bb.AddCommentWithFiles("once more", []repository.Hash{h1, repository.Hash(bogus)})
+						if err == nil {
+							err = bb.Commit()
+						}
+					}
+					_ = err
+				}
 				return "ok", 0
 			})
 		case 15:
